@@ -336,6 +336,49 @@ func genMutants(rng *lib.Rng, b *baseScenario, thorough bool) []job {
 		jobs = append(jobs, job{klass: "mutant/link-in-directory", in: &Input{Entry: "verify", Note: "package link " + path + " " + mut,
 			File: layoutFile, Dir: dir}})
 	})
+	// VALIDLY SIGNED links whose collections are JSON null (structurally fine, written by another producer): every stage
+	// that touches the agreed link - rules, reduction, summary - sees nil maps and slices; both wrappers, either step
+	for _, dsse := range []bool{false, true} {
+		for _, step := range []string{"build", "package"} {
+			for _, field := range []string{"materials", "products", "byproducts", "command", "environment", "all"} {
+				l := b.linkBuild
+				signer := pool("ed1")
+				if step == "package" {
+					l = b.linkPkg
+					if dsse {
+						signer = pool("ecdsa256")
+					}
+				}
+				l = mkLink(l.Name, l.Materials, l.Products)
+				if field == "materials" || field == "all" {
+					l.Materials = nil
+				}
+				if field == "products" || field == "all" {
+					l.Products = nil
+				}
+				if field == "byproducts" || field == "all" {
+					l.ByProducts = nil
+				}
+				if field == "command" || field == "all" {
+					l.Command = nil
+				}
+				if field == "environment" || field == "all" {
+					l.Environment = nil
+				}
+				src, lay := b.dirA, signedFile(b.layoutA, false, b.owner)
+				if dsse {
+					src, lay = b.dirADSSE, signedFile(b.layoutA, true, b.owner)
+				}
+				dir := &DirSpec{Files: map[string][]byte{}}
+				for n, c := range src.Files {
+					dir.Files[n] = c
+				}
+				dir.Files[linkFileName(step, signer.Pub)] = signedFile(l, dsse, signer)
+				jobs = append(jobs, job{klass: "signed-link-null-collections", in: &Input{Entry: "verify",
+					Note: fmt.Sprintf("%s link with null %s, validly signed (dsse=%v)", step, field, dsse), File: lay, Dir: dir}})
+			}
+		}
+	}
 	return jobs
 }
 
